@@ -35,7 +35,8 @@ from pytools.py_codegen import (  # It's the same code. So sue me.
 from dagrt.codegen.codegen_base import StructuredCodeGenerator
 from dagrt.codegen.expressions import FortranExpressionMapper
 from dagrt.codegen.utils import (
-    KeyToUniqueNameMap, make_identifier_from_name, wrap_line_base)
+    KeyToUniqueNameMap, make_identifier_from_name, split_outside_quotes,
+    wrap_line_base)
 from dagrt.data import UserType
 from dagrt.utils import is_state_variable
 
@@ -62,7 +63,8 @@ def pad_fortran(line, width):
     return line
 
 
-wrap_line = partial(wrap_line_base, pad_func=pad_fortran)
+wrap_line = partial(wrap_line_base, pad_func=pad_fortran,
+                    lex_func=split_outside_quotes)
 
 
 # {{{ name manager
